@@ -6,6 +6,7 @@ import (
 	"go/constant"
 	"go/token"
 	"go/types"
+	"sort"
 	"strings"
 
 	"golang.org/x/tools/go/packages"
@@ -78,11 +79,13 @@ func mkFuncDecl(paramT *DT, ret *DT) *Obj {
 }
 
 // observeCall evaluates VisitFuncCall for one configuration.
-func observeCall(L *Loaded, in *Interp, mk func() *Obj, cfg callCfg, paramT *DT) callObs {
-	var ob callObs
+func observeCall(L *Loaded, in *Interp, mk func() *Obj, cfg callCfg, paramT *DT) []callObs {
+	var all []callObs
 	decl := mkFuncDecl(paramT, cfg.ret)
 	callModels(in, &cfg, decl)
 	in.RunAll(64, func() {
+		ob := callObs{}
+		defer func() { all = append(all, ob) }()
 		cobj := mk()
 		cobj.set("optimizationLevel", ConstV{V: constant.MakeInt64(int64(cfg.level)), T: types.Typ[types.Int]})
 		fw := newObj("funcWrapper")
@@ -101,7 +104,7 @@ func observeCall(L *Loaded, in *Interp, mk func() *Obj, cfg callCfg, paramT *DT)
 				return
 			}
 		}
-		ob.runs++
+		ob.runs = 1
 		var operand *IRVal
 		copies := map[*IRVal]string{}
 		claimed := map[*IRVal]bool{}
@@ -181,7 +184,7 @@ func observeCall(L *Loaded, in *Interp, mk func() *Obj, cfg callCfg, paramT *DT)
 			}
 		}
 	})
-	return ob
+	return all
 }
 
 // calleeFrees evaluates exitFuncScope for a function with one non-reference parameter p.
@@ -239,43 +242,63 @@ func checkC05Calls(c *Check, L *Loaded) {
 				for _, temp := range []bool{false, true} {
 					for _, ret := range []*DT{{Kind: "ZAHL"}, T} {
 						cfg := callCfg{level: level, konst: konst, extern: extern, temp: temp, ret: ret}
-						ob := observeCall(L, in, mk, cfg, T)
+						obs := observeCall(L, in, mk, cfg, T)
 						key := fmt.Sprintf("compiler.(*compiler).VisitFuncCall|extern=%v -O%d constant-parameter=%v argument-temporary=%v result=%s", extern, level, konst, temp, toGen(ret))
-						if ob.runs == 0 || !dec {
-							r.Und(key, token.NoPos, fmt.Sprint("not evaluated: ", ob.problems))
+						runs := 0
+						var bad []string
+						hows := map[string]bool{}
+						for _, ob := range obs {
+							bad = append(bad, ob.problems...)
+							if ob.runs == 0 {
+								continue
+							}
+							runs++
+							fresh := ob.copied || ob.moved
+							calleeReleases := cf && !extern
+							releases := 0
+							if calleeReleases {
+								releases++
+							}
+							if ob.callerFrees {
+								releases++
+							}
+							if ob.registered {
+								releases++
+							}
+							switch {
+							case fresh && ob.passedDirect:
+								bad = append(bad, "the call passes both the argument and a copy")
+							case fresh && releases == 0:
+								bad = append(bad, "the caller passes a fresh copy but neither the callee's scope exit nor the caller releases it: the copy leaks")
+							case fresh && releases > 1:
+								bad = append(bad, fmt.Sprintf("the fresh copy is released %d times (callee scope exit: %v, caller after the call: %v, caller's scope end: %v)", releases, calleeReleases, ob.callerFrees, ob.registered))
+							case !fresh && calleeReleases:
+								bad = append(bad, "the caller passes the argument itself but the callee's scope exit releases its parameter: the caller's value is released twice (dangling afterwards)")
+							case !fresh && ob.callerFrees:
+								bad = append(bad, "the caller passes the argument itself and releases it after the call")
+							}
+							if extern && fresh && !ob.callerFrees {
+								bad = append(bad, "an extern callee never releases its parameters, and the caller does not release the copy after the call")
+							}
+							if ob.moved && !temp {
+								bad = append(bad, "a non-temporary argument is claimed")
+							}
+							if fresh {
+								hows["fresh copy/claimed temporary passed, released once"] = true
+							} else {
+								hows["argument passed as is, nobody releases it through the call"] = true
+							}
+						}
+						if runs == 0 || !dec {
+							r.Und(key, token.NoPos, fmt.Sprint("not evaluated: ", bad))
 							continue
 						}
-						var bad []string
-						bad = append(bad, ob.problems...)
-						fresh := ob.copied || ob.moved
-						someoneFrees := (cf && !extern) || ob.callerFrees
-						switch {
-						case fresh && ob.passedDirect:
-							bad = append(bad, "paths disagree on whether the argument is copied")
-						case fresh && !someoneFrees:
-							bad = append(bad, "the caller passes a fresh copy but neither the callee's scope exit nor the caller releases it: the copy leaks")
-						case !fresh && someoneFrees && !extern:
-							bad = append(bad, "the caller passes the argument itself but the callee's scope exit releases its parameter: the caller's value is released twice (dangling afterwards)")
-						case !fresh && ob.callerFrees:
-							bad = append(bad, "the caller passes the argument itself and releases it after the call")
-						case extern && cf && false:
+						var hl []string
+						for h := range hows {
+							hl = append(hl, h)
 						}
-						if extern && !ob.callerFrees && fresh {
-							bad = append(bad, "an extern callee never releases its parameters, and the caller does not release the copy either")
-						}
-						if ob.callerFrees && !extern && cf {
-							bad = append(bad, "both the callee's scope exit and the caller release the parameter")
-						}
-						if ob.moved && !temp {
-							bad = append(bad, "a non-temporary argument is claimed")
-						}
-						if ob.registered && someoneFrees {
-							bad = append(bad, "the passed slot is registered as a temporary of the caller although it is released by the call protocol")
-						}
-						how := "argument passed as is; nobody releases it through the call"
-						if fresh {
-							how = "fresh copy/claimed temporary passed; released by the " + map[bool]string{true: "caller (extern)", false: "callee"}[ob.callerFrees]
-						}
+						sort.Strings(hl)
+						how := strings.Join(hl, " / ")
 						r.Decide(len(bad) == 0, key, token.NoPos, how, strings.Join(uniq(bad), "; "))
 					}
 				}
@@ -307,3 +330,6 @@ func init() {
 		})
 	}
 }
+
+func constantInt(n int) constant.Value { return constant.MakeInt64(int64(n)) }
+func intType() types.Type              { return types.Typ[types.Int] }
